@@ -29,7 +29,18 @@ pub fn run_both(prog: &Prog, direct: &[Vec<Stmt>], replies: &[&str], budget: u64
     let mut rq: VecDeque<String> = replies.iter().map(|s| s.to_string()).collect();
     for d in direct {
         let is_run = d.len() == 1 && d[0] == Stmt::Raw("RUN".into());
-        let end = if is_run { m.run(None, &mut rq, budget) } else { m.direct(d, &mut rq, budget) };
+        // Raw("RUN n") means RUN n
+        let run_at: Option<u16> = match d.first() {
+            Some(Stmt::Raw(t)) if d.len() == 1 && t.starts_with("RUN ") => t[4..].trim().parse().ok(),
+            _ => None,
+        };
+        let end = if is_run {
+            m.run(None, &mut rq, budget)
+        } else if run_at.is_some() {
+            m.run(run_at, &mut rq, budget)
+        } else {
+            m.direct(d, &mut rq, budget)
+        };
         match end {
             End::Stopped => {}
             End::Undefined(why) => return Both::Skip(why),
